@@ -87,6 +87,8 @@ theorem gen_new_eq : @SLV.Gen.new = @SLV.BOp.tryNew := by
 
 theorem gen_projection_eq : @SLV.Gen.projection = @SLV.BOp.projection := rfl
 theorem gen_mul_eq : @SLV.Gen.mul = @SLV.BOp.mul := rfl
+/- repair a66cfd4: `let wx = self.base_rate / a; let wy = rhs.base_rate / a;` before the `d` and `u` sums; same operation order
+   in the model, so `rfl` (the earlier text, equal over ℚ, is NOT accepted: selftest "comul: the pre-repair text") -/
 theorem gen_comul_eq : @SLV.Gen.comul = @SLV.BOp.comul := rfl
 theorem gen_cfuse_eq : @SLV.Gen.cfuse = @SLV.BOp.cfuse := rfl
 theorem gen_afuse_eq : @SLV.Gen.afuse = @SLV.BOp.afuse := rfl
@@ -99,7 +101,9 @@ theorem gen_trans_bsr_eq : @SLV.Gen.trans_bsr = @SLV.BOp.transBsr := rfl
     the Rust code) and computes `k` in the separate function `deduceK`, which returns the pair (k, tag); the Rust text has
     one function with `let k = match (b0 > b1, d0 > d1) { (true, true) | (false, false) => 0.0,
     (true, false) => { let ka = ..; let kb = ..; ka.min(kb) }, (false, true) => { .. } }` (`r.min(s)` on `$ft` operands
-    ↦ `Scalar.min r s`, the NaN-skipping `f64::min`).  Case split on the two Booleans of the selector, then `rfl`. -/
+    ↦ `Scalar.min r s`, the NaN-skipping `f64::min`).  Case split on the two Booleans of the selector, then `rfl`.
+    Repair cf81fd9: `let b = if b < 0.0 { 0.0 } else { b };` (same for `d`) ↦ `if Scalar.lt b Scalar.zero then Scalar.zero else b`,
+    the shape already translated for the multinomial `deduce_of` (9ec2d8b); float literals on `$ft` ↦ `Scalar.zero`. -/
 theorem gen_deduce_eq :
     @SLV.Gen.deduce = fun (α : Type) (_ : Scalar α) (x : BOp α) (c0 c1 : α × α × α) (ay : α) =>
       (SLV.BOp.deduce x c0 c1 ay).1 := by
